@@ -70,6 +70,7 @@ struct Work {
 	lzma_block blk; lzma_filter blk_filters[LZMA_FILTERS_MAX + 1]; bool blk_ok = false;
 	bool sync_flushable = true;
 	uint64_t micro_uncomp = 0;
+	std::vector<uint64_t> aim; unsigned aim_delta = 0;   // file info decoder: positions the decoder jumps forward to, see aim_file_info()
 	std::string desc; uint64_t hash = 0;
 	Work() { memset(&blk, 0, sizeof blk); for (auto &f : blk_filters) { f.id = LZMA_VLI_UNKNOWN; f.options = NULL; } }
 	~Work() { lzma_index_end(idx_in, NULL); lzma_index_end(idx_out, AL()); if (blk_ok) lzma_filters_free(blk_filters, AL()); }
@@ -113,6 +114,33 @@ static Recipe small_recipe(Case &c, uint32_t period_hint) {
 }
 
 // encode `plain` with a configuration for the given entries; appends to out; returns false on environment trouble
+// File info decoder, an eighth of its cases (last case byte): the file is made longer than the decoder's 8 KiB window by a
+// leading Stream of incompressible data, the positions the decoder jumps *forward* to are learnt from a dry run in 64-byte reads,
+// and the history's reads are sized so that they end 0..14 bytes before such a position: the decoder has to choose between moving
+// inside the caller's slice and LZMA_SEEK_NEEDED exactly at the edge of the slice.
+static uint8_t g_last_byte = 0;
+static void aim_file_info(Work &w) {
+	Rng r(hcomb(w.hash, 0xF11E));
+	std::vector<uint8_t> big(8300 + r.below(12000)); for (auto &b : big) b = r.byte();
+	std::vector<uint8_t> enc(lzma_stream_buffer_bound(big.size())); size_t op = 0;
+	if (lzma_easy_buffer_encode(0, r.below(2) ? LZMA_CHECK_CRC32 : LZMA_CHECK_NONE, NULL, big.data(), big.size(), enc.data(), &op, enc.size()) != LZMA_OK) return;
+	w.feed.insert(w.feed.begin(), enc.begin(), enc.begin() + op);
+	lzma_stream s = LZMA_STREAM_INIT; lzma_index *idx = NULL;
+	if (lzma_file_info_decoder(&s, &idx, UINT64_MAX, w.feed.size()) != LZMA_OK) return;
+	size_t pos = 0;
+	for (unsigned i = 0; i < 20000; ++i) {
+		size_t n = std::min<size_t>(64, w.feed.size() - pos); s.next_in = w.feed.data() + pos; s.avail_in = n;
+		lzma_ret q = lzma_code(&s, LZMA_RUN); size_t used = n - s.avail_in;
+		if (q == LZMA_SEEK_NEEDED) { if (s.seek_pos > pos + used && s.seek_pos <= w.feed.size()) w.aim.push_back(s.seek_pos); if (s.seek_pos > w.feed.size()) break; pos = (size_t)s.seek_pos; continue; }
+		pos += used; if (q != LZMA_OK) break;
+	}
+	lzma_end(&s); lzma_index_end(idx, NULL);
+	w.aim_delta = (g_last_byte >> 3) % 15;
+	w.desc += ",\"leading_stream_bytes\":" + std::to_string(op) + ",\"reads_end_before_forward_jump_by\":" + std::to_string(w.aim_delta);
+	w.hash = hcomb(w.hash, hcomb(op, w.aim_delta));
+	if (!w.aim.empty()) count("fileinfo_reads_aimed_at_forward_jump");
+}
+
 static bool gen_encoded(Case &c, Work &w, uint32_t entries_mask, std::vector<uint8_t> &out, bool append_plain) {
 	ec::DrawFlags f; f.allow_big = false; f.allow_norm_hook = false; f.entries_mask = entries_mask;
 	ec::draw_config(c, w.g, f);
@@ -175,6 +203,7 @@ static bool make_work(Case &c, Work &w) {
 			unsigned pad = c.chance(80) ? 4 * (1 + c.u(3)) : 0;
 			if (nstreams > 1 || w.kind == K_FILEINFO_DEC || (w.flags & LZMA_CONCATENATED)) w.feed.insert(w.feed.end(), pad, 0);
 		}
+		if (w.kind == K_FILEINFO_DEC && (g_last_byte & 7) == 3) aim_file_info(w);
 		if (w.kind == K_MT_DEC) { w.threads = 1 + c.u(3); w.timeout = c.pick<uint32_t>({0, 0, 0, 1}); w.timed = w.timeout != 0; w.desc += ",\"threads\":" + std::to_string(w.threads) + ",\"timeout\":" + std::to_string(w.timeout); }
 		break; }
 	case K_AUTO_DEC: {
@@ -467,6 +496,7 @@ static bool step(Case &c, Harness &h) {
 	auto legal = [&](bool want_nonrun) {
 		if (m.st == M_INACT) { cs.action = m.act; cs.avail_in = m.avail; cs.avail_out = draw_out(); cs.what = "continue"; return; }
 		cs.avail_in = draw_in(); cs.avail_out = draw_out();
+		for (uint64_t t : w.aim) if (t > h.pos + w.aim_delta && t - w.aim_delta - h.pos <= remaining) { cs.avail_in = (size_t)(t - w.aim_delta - h.pos); break; }
 		int a = w.sup[0] ? LZMA_RUN : LZMA_FINISH;
 		if (want_nonrun || c.chance(40)) a = nonrun();
 		// decoders: LZMA_FINISH before the whole stream has been supplied makes the outcome open; keep that rare
@@ -522,6 +552,7 @@ extern "C" int LLVMFuzzerTestOneInput(const uint8_t *data, size_t size) {
 	begin_case("C11");
 	g_wd_sig.store("C11:mt-hang");
 	Case c(data, size);
+	g_last_byte = size ? data[size - 1] : 0;
 	Work w;
 	if (!make_work(c, w)) { count("environment_alloc_cap"); return 0; }
 	Harness h(w);
